@@ -77,6 +77,37 @@ def regen():
     return rc == 0, out
 
 
+def envprobe(wdir):
+    """The regenerated data (tables, coefficients, matrices) must not depend on the process
+    environment the library is first used in: re-run the dumper in fresh processes under other
+    GOMAXPROCS values and compare with lean/Prism/Gen byte for byte.  Returns a list of problems."""
+    import filecmp, shutil
+    problems = []
+    gen = os.path.join(LEAN, "Prism", "Gen")
+    for n in ("1", "3", "7"):
+        d = os.path.join(wdir, "envdump_" + n)
+        shutil.rmtree(d, ignore_errors=True)
+        os.makedirs(d, exist_ok=True)
+        e = dict(os.environ)
+        e["GOMAXPROCS"] = n
+        rc, out, dt = sh([PV, "dump", d], env=e, timeout=600)
+        diff = []
+        if rc == 0:
+            for f in sorted(os.listdir(gen)):
+                if f.endswith(".lean") and f != "Access.lean":
+                    if not os.path.exists(os.path.join(d, f)) or not filecmp.cmp(os.path.join(gen, f), os.path.join(d, f), shallow=False):
+                        diff.append(f)
+        shutil.rmtree(d, ignore_errors=True)
+        if rc != 0 or diff:
+            problems.append({"kind": "env", "env": {"GOMAXPROCS": n},
+                             "what": ("the code's tables/constants depend on the process environment: with GOMAXPROCS=%s the dumper %s" %
+                                      (n, ("regenerates different data in " + ", ".join(diff[:6])) if rc == 0 else "fails")),
+                             "failed_modules": ["Prism.Gen." + f[:-5] + " (regenerated under GOMAXPROCS=%s: the kernel-checked theorems are about the default-environment data)" % n for f in diff[:6]],
+                             "detail": out[-1500:]})
+            break
+    return problems
+
+
 def lake_build(targets, timeout=5400):
     rc, out, dt = sh(["lake", "build"] + targets, cwd=LEAN, timeout=timeout)
     failed = re.findall(r"^- (\S+)$", out, flags=re.M)
@@ -276,6 +307,66 @@ def corr(pid, tier, seed, wdir, timeout):
     return ok and not mism, info
 
 
+HOSTILE_ENVS = [
+    {"LANG": "de_DE.UTF-8", "LC_ALL": "de_DE.UTF-8", "LC_MESSAGES": "de_DE.UTF-8", "LANGUAGE": "de", "TZ": "Pacific/Kiritimati", "GOMAXPROCS": "3"},
+    {"LANG": "ja_JP.UTF-8", "LC_ALL": "ja_JP.UTF-8", "LC_MESSAGES": "ja_JP.UTF-8", "LANGUAGE": "ja", "TZ": "America/St_Johns", "GOMAXPROCS": "7"},
+]
+
+
+def envrun(pid, tier, seed, wdir, timeout):
+    """The same correspondence cases in a fresh process under another locale / time zone / GOMAXPROCS:
+    what the library returns must still be what the model says (the model has no environment).
+    Reuses ops.txt/model.txt of the main run; returns (problems, directs, info)."""
+    problems, directs, info = [], [], {}
+    try:
+        ops0 = open(os.path.join(wdir, "ops.txt"), encoding="utf-8", errors="replace").read().split("\n")
+        model = open(os.path.join(wdir, "model.txt"), encoding="utf-8", errors="replace").read().split("\n")
+    except OSError:
+        return problems, directs, {"skipped": "no main run"}
+    for k, he in enumerate(HOSTILE_ENVS[:(2 if tier == "thorough" else 1)]):
+        d = os.path.join(wdir, "envrun%d" % k)
+        os.makedirs(d, exist_ok=True)
+        env = goenv()
+        env["GOMEMLIMIT"] = env.get("GOMEMLIMIT", "8GiB")
+        env.update(he)
+        rc, out, dt = sh([PV, "corr", pid, tier, str(seed), d], env=env, timeout=timeout)
+        info["env%d_s" % k] = round(dt, 2)
+        tag = ",".join("%s=%s" % kv for kv in sorted(he.items()) if kv[0] in ("LANG", "TZ", "GOMAXPROCS"))
+        if rc != 0:
+            problems.append({"kind": "env", "env": he, "what": "the correspondence harness fails under " + tag, "detail": out[-1500:]})
+            continue
+        ops = open(os.path.join(d, "ops.txt"), encoding="utf-8", errors="replace").read().split("\n")
+        impl = open(os.path.join(d, "impl.txt"), encoding="utf-8", errors="replace").read().split("\n")
+        mism = []
+        if ops == ops0:
+            for i in range(len(ops)):
+                a = impl[i] if i < len(impl) else "<missing>"
+                b = model[i] if i < len(model) else "<missing>"
+                if a != b and not set_match(a, b):
+                    mism.append({"line": i, "op": ops[i][:4000], "impl": a[:4000], "model": b[:4000], "env": he})
+        else:
+            info["env%d_note" % k] = "the generated cases differ under this environment (not compared line by line)"
+        try:
+            st = json.load(open(os.path.join(d, "stats.json")))
+            for dd in (st.get("extra", {}) or {}).get("direct", []) or []:
+                dd = dict(dd)
+                dd["process_env"] = he
+                dd["key"] = str(dd.get("key")) + "/env:" + tag
+                directs.append(dd)
+        except Exception:
+            pass
+        if mism:
+            problems.append({"kind": "corr", "env": he,
+                             "what": "under %s the library's answers differ from the model on %d operations (they agree in the default environment)" % (tag, len(mism)),
+                             "mismatches": mism[:20]})
+        for fn in ("ops.txt", "impl.txt", "stats.json"):
+            try:
+                os.remove(os.path.join(d, fn))
+            except OSError:
+                pass
+    return problems, directs, info
+
+
 def racerun(tier, wdir):
     """C11 search: fresh -race processes whose goroutines meet at first use. Returns list of findings."""
     findings = []
@@ -288,7 +379,8 @@ def racerun(tier, wdir):
         info["error"] = "cannot build the -race stress program: " + out[-800:]
         return findings, info
     img = os.path.join(REPO, "test-images", "pizza-rgb8-srgb.jpg")
-    combos = [(2, 1), (8, 4), (64, 16)] if tier == "quick" else [(n, p) for n in (2, 8, 64) for p in (1, 4, 16)] * 3
+    combos = ([(2, 1), (8, 4), (64, 16), (8, 3), (16, 5), (8, 6), (33, 7), (2, 3), (3, 5), (16, 7), (64, 3), (5, 6), (8, 12)] if tier == "quick"
+              else [(n, p) for n in (2, 8, 64) for p in (1, 3, 4, 5, 6, 7, 12, 16)] * 3)
     digests = set()
     for n, procs in combos:
         e = dict(env)
@@ -345,18 +437,24 @@ def next_replay_path(pid):
     return os.path.join(d, "%s-%d.json" % (pid, k))
 
 
-def search(pid, kind, payload, wdir):
+def search(pid, kind, payload, wdir, env_extra=None):
     """Ask the Go side to evaluate the property's own oracle on the real code.
     Returns dict {found: bool, witness: ..., detail: ...}."""
     req = os.path.join(wdir, "search_req.json")
     json.dump({"kind": kind, "payload": payload}, open(req, "w"))
-    rc, out, dt = sh([PV, "search", pid, req], env=goenv(), timeout=900)
+    env = goenv()
+    env.update(env_extra or (payload.get("env") if isinstance(payload, dict) else None) or {})
+    rc, out, dt = sh([PV, "search", pid, req], env=env, timeout=900)
     res = {"found": False, "detail": out[-4000:], "rc": rc}
     for line in out.splitlines():
         if line.startswith("WITNESS "):
             try:
                 res["witness"] = json.loads(line[len("WITNESS "):])
                 res["found"] = True
+                if env_extra or (isinstance(payload, dict) and payload.get("env")):
+                    res["witness"]["process_env"] = env_extra or payload.get("env")
+                    res["witness"]["key"] = str(res["witness"].get("key")) + "/env:" + ",".join(
+                        "%s=%s" % kv for kv in sorted((env_extra or payload.get("env")).items()))
             except Exception:
                 pass
     return res
@@ -395,6 +493,9 @@ def run_check(pid, tier, seed):
             if not ok:
                 problems.append({"kind": "regen", "what": "pv dump failed (panic or error while reading the code's data)",
                                  "detail": out[-3000:]})
+            if ok and P.get("envprobe"):
+                problems += envprobe(wdir)
+                steps["envprobe"] = "GOMAXPROCS in 1,3,7: " + ("data differs" if any(p["kind"] == "env" for p in problems) else "identical data")
         targets = list(P.get("targets", [])) + ["driver"]
         tb0 = time.time()
         ok, out, failed, errors = lake_build(targets)
@@ -440,12 +541,22 @@ def run_check(pid, tier, seed):
                              ("model and implementation disagree on %d of %d operations" % (cinfo.get("mismatch_count", 0), cinfo.get("lines", 0))),
                              "mismatches": cinfo.get("mismatches", [])[:20], "detail": cinfo.get("harness_out", "")[-1500:]})
 
-    # ---- 4b: property-specific extra exploration (search only, never the claim) -------------------
+    # ---- 4a: the same cases under another process environment ------------------------------------
     extra_direct = []
+    if P.get("envrun") and steps.get("corr"):
+        eprob, edir, einfo = envrun(pid, tier, seed, wdir, P.get("corr_timeout", 3000))
+        problems += eprob
+        steps["envrun"] = einfo
+        extra_direct_env = edir
+    else:
+        extra_direct_env = []
+
+    # ---- 4b: property-specific extra exploration (search only, never the claim) -------------------
     if P.get("extra") == "racerun" and steps.get("build_harness"):
         fnd, rinfo = racerun(tier, wdir)
         steps["racerun"] = rinfo
         extra_direct = fnd
+    extra_direct = list(extra_direct) + extra_direct_env
 
     # ---- 5: search for a concrete failing input ------------------------------------------------
     known = [k for k in load_known() if k.get("property") == pid and k.get("status") == "open"]
